@@ -3,11 +3,11 @@ EXTENDS Args, IOUtils
 VARIABLE l
 Tr == ndJsonDeserialize(IOEnv.TRACE)
 Ev == Tr[l]
-TInitA == l = 1 /\ sc = [kind |-> "ref", shape |-> "same", pos |-> 0, cat |-> "lref"]
+TInitA == l = 1 /\ sc = [kind |-> "ref", shape |-> "same", pos |-> 0, cat |-> "lref", ret |-> RetOf("ref", "same", 0, "lref")]
 TResetA == l <= Len(Tr) /\ Ev.e \in {"reset", "ok"} /\ l' = l + 1 /\ UNCHANGED sc
 TArgs ==
     /\ l <= Len(Tr) /\ Ev.e = "args" /\ l' = l + 1
-    /\ Ev.sc \in [kind : Kind, shape : Shape, pos : Pos, cat : Cat]
+    /\ Ev.sc \in Family
     /\ Ev.ran                                          \* the definition did run
     /\ Accept(Ev.sc, Ev.r)
     /\ sc' = Ev.sc
